@@ -24,7 +24,8 @@ def _enum(lib, tail):
 
 
 def _is_next(name):
-    return bool(re.search(r"<frontend::parser::CstChildren(<[^>]*>)? as std::iter::Iterator>::next$|<std::vec::IntoIter<.*> as std::iter::Iterator>::next$", name))
+    return bool(re.search(r"<frontend::parser::CstChildren(<[^>]*>)? as std::iter::Iterator>::next$|<std::vec::IntoIter<.*> as std::iter::Iterator>::next$"
+                          r"|<std::iter::Peekable<.*> as std::iter::Iterator>::next$|std::iter::Peekable<.*>::next_if(_eq)?$", name))
 
 
 def _derives(e, call_e):
